@@ -349,6 +349,29 @@ def case_hkdf_limit(m, layout, variant_a, counter, posn, ilen, chunks):
     return None
 
 
+def case_hkdf_oneshot_limit(m, layout, variant_a, outlen):
+    """one-shot HKDF at the RFC 5869 limit: 255 blocks (8160 bytes) are served
+    and equal the specification; one byte more is refused with -1 and the
+    output buffer is not written"""
+    a = "a" if variant_a else ""
+    R = modes.Run(m, layout)
+    K, S, I = R.buf("K", 16), R.buf("S", 8), R.buf("I", 3)
+    out = R.buf("X", outlen)
+    r = to_int(R.call("ascon_hkdf" + a, out, outlen, K, 16, S, 8, I, 3))
+    if outlen > 255 * 32:
+        if r != 0xffffffff:
+            return ("limit", "a request for %d bytes (more than 255 blocks of 32) returns %s instead of -1" % (outlen, r))
+        if R.read(out, outlen) != SB("X", outlen):
+            return ("limit", "a refused request for %d bytes still writes to the output buffer" % outlen)
+        return None
+    if r != 0:
+        return ("limit", "a request for %d bytes (at most 255 blocks of 32) returns %s instead of 0" % (outlen, r))
+    d = modes.first_diff(R.read(out, outlen), R.spec.hkdf(variant_a, SB("K", 16), SB("S", 8), SB("I", 3), outlen))
+    if d:
+        return ("limit", "output of %d bytes differs from RFC 5869 at %s" % (outlen, d))
+    return None
+
+
 def case_kdf(m, layout, variant_a, klen, clen, outlen):
     a = "a" if variant_a else ""
     R = modes.Run(m, layout)
